@@ -696,34 +696,42 @@ def gen_program(rng, mode):
 
     # defect injections (one per program)
     if mode == "amb":
-        cands = [(a, b) for a in types for b in types if a["i"] < b["i"] and (set(a["vm"]) & set(b["vm"]))]
-        if not cands:
-            a = types[0]
-            b = types[-1]
-            nm = "M"
-            for t in (a, b):
-                if nm not in t["vm"] and nm not in t["pm"]:
-                    t["vm"].append(nm)
-                    t["sel"].add(nm)
-                elif nm in t["pm"]:
-                    t["pm"].remove(nm); t["vm"].append(nm)
-            cands = [(a, b)]
-        a, b = rng.choice(cands)
-        t = {"name": "T%d" % n, "i": n, "kind": "struct", "emb": [(a["i"], False), (b["i"], rng.random() < 0.3)], "vm": [], "pm": [],
-             "sel": a["sel"] | b["sel"], "taint": True}
-        types.append(t)
+        nm = rng.choice(["M", "N", "m"])
+        if rng.random() < 0.5:
+            # two fresh embedded types with the same method at the same depth
+            a = {"name": "T%d" % n, "i": n, "kind": "struct", "emb": [], "vm": [nm], "pm": [], "sel": {nm, "c%d" % n}, "taint": False}
+            b = {"name": "T%d" % (n + 1), "i": n + 1, "kind": rng.choice(["struct", "int"]), "emb": [], "vm": [nm], "pm": [],
+                 "sel": {nm, "c%d" % (n + 1)}, "taint": False}
+            types += [a, b]
+            types.append({"name": "T%d" % (n + 2), "i": n + 2, "kind": "struct", "emb": [(n, False), (n + 1, rng.random() < 0.3 and b["kind"] == "struct")],
+                          "vm": [], "pm": [], "sel": a["sel"] | b["sel"], "taint": True})
+        else:
+            # diamond: the same type reached twice at the same depth
+            c = {"name": "T%d" % n, "i": n, "kind": "struct", "emb": [], "vm": [nm], "pm": [], "sel": {nm, "c%d" % n}, "taint": False}
+            a = {"name": "T%d" % (n + 1), "i": n + 1, "kind": "struct", "emb": [(n, True)], "vm": [], "pm": [], "sel": set(c["sel"]) | {c["name"]}, "taint": False}
+            b = {"name": "T%d" % (n + 2), "i": n + 2, "kind": "struct", "emb": [(n, True)], "vm": [], "pm": [], "sel": set(c["sel"]) | {c["name"]}, "taint": False}
+            types += [c, a, b]
+            types.append({"name": "T%d" % (n + 3), "i": n + 3, "kind": "struct", "emb": [(n + 1, False), (n + 2, False)],
+                          "vm": [], "pm": [], "sel": a["sel"] | b["sel"], "taint": True})
+        n = len(types)
     elif mode == "ptrshadow":
-        e = rng.choice([t for t in types if t["vm"]] or [types[0]])
-        if not e["vm"]:
-            e["vm"].append("M"); e["sel"].add("M")
+        cands = [t for t in types if t["vm"]]
+        if not cands:
+            types.append({"name": "T%d" % n, "i": n, "kind": "struct", "emb": [], "vm": ["M"], "pm": [], "sel": {"M", "c%d" % n}, "taint": False})
+            cands = [types[-1]]
+            n += 1
+        e = rng.choice(cands)
         t = {"name": "T%d" % n, "i": n, "kind": "struct", "emb": [(e["i"], False)], "vm": [], "pm": [rng.choice(e["vm"])],
              "sel": set(e["sel"]), "taint": True}
         types.append(t)
     elif mode == "fieldhide":
-        e = rng.choice([t for t in types if [m for m in t["vm"] if m[0].isupper()]] or [types[0]])
+        cands = [t for t in types if [m for m in t["vm"] if m[0].isupper()]]
+        if not cands:
+            types.append({"name": "T%d" % n, "i": n, "kind": "struct", "emb": [], "vm": ["M"], "pm": [], "sel": {"M", "c%d" % n}, "taint": False})
+            cands = [types[-1]]
+            n += 1
+        e = rng.choice(cands)
         ups = [m for m in e["vm"] if m[0].isupper()]
-        if not ups:
-            e["vm"].append("M"); e["sel"].add("M"); ups = ["M"]
         t = {"name": "T%d" % n, "i": n, "kind": "struct", "emb": [(e["i"], False)], "vm": [], "pm": [],
              "extra_fields": ["%s int" % rng.choice(ups)], "sel": set(e["sel"]), "taint": True}
         types.append(t)
@@ -732,7 +740,8 @@ def gen_program(rng, mode):
             if set(t["vm"] + t["pm"]) & set(PROTO):
                 t["taint"] = True
         if not any(t["taint"] for t in types):
-            types[0]["vm"].append("toString"); types[0]["sel"].add("toString"); types[0]["taint"] = True
+            types.append({"name": "T%d" % n, "i": n, "kind": "struct", "emb": [], "vm": ["toString"], "pm": [],
+                          "sel": {"toString", "c%d" % n}, "taint": True})
     # taint propagates to every type that embeds a tainted one
     for t in types:
         if any(types[j]["taint"] for (j, _) in t["emb"]):
@@ -891,9 +900,9 @@ def gen_program(rng, mode):
 def run_programs(chk, tier):
     from . import progs
     q = tier != "thorough"
-    counts = {"clean": 40 if q else 700, "amb": 6 if q else 80, "ptrshadow": 5 if q else 60, "fieldhide": 5 if q else 60,
-              "protoname": 4 if q else 50, "namedptr": 4 if q else 50, "memo": 6 if q else 80, "seenstr": 4 if q else 50,
-              "canon-embedded": 2 if q else 20, "canon-tag": 2 if q else 20, "cmp": 3 if q else 30, "recvcopy": 4 if q else 40}
+    counts = {"clean": 24 if q else 500, "amb": 4 if q else 60, "ptrshadow": 3 if q else 40, "fieldhide": 3 if q else 40,
+              "protoname": 2 if q else 30, "namedptr": 2 if q else 30, "memo": 4 if q else 60, "seenstr": 2 if q else 30,
+              "canon-embedded": 1 if q else 10, "canon-tag": 1 if q else 10, "cmp": 2 if q else 20, "recvcopy": 2 if q else 30}
     jobs, meta = [], []
     for mode, k in counts.items():
         for _ in range(k):
@@ -928,10 +937,11 @@ def run_programs(chk, tier):
             if differing is None and mode in PROG_SIG and js[1].startswith("jserror:TypeError") and "is not a function" in js[1]:
                 # an assertion that wrongly succeeded: the call of the missing method crashes. The line being printed must
                 # belong to a type that contains the injected construct.
-                k = 0
-                while k < len(js[0]) and k < len(nat[0]) and js[0][k] == nat[0][k]:
-                    k += 1
-                if k == len(js[0]) and k < len(nat[0]) and nat[0][k].split(" ")[0] in tainted:
+                m = min(len(js[0]), len(nat[0]))
+                labels = [a.split(" ")[0] for a, b in zip(js[0][:m], nat[0][:m]) if a != b]
+                if len(js[0]) < len(nat[0]):
+                    labels.append(nat[0][len(js[0])].split(" ")[0])
+                if labels and all(l in tainted for l in labels):
                     sig = PROG_SIG[mode]
             elif differing is not None and mode == "recvcopy":
                 sig = SIG_RECV
